@@ -29,8 +29,9 @@ func (a *config) MergeSpoc(d deviceconf.Config) deviceconf.Config {
 				errlog.Abort("Must not redefine chain %q of table %q from rawdata",
 					cName, tName)
 			}
+			top := 0
 			for _, ru := range bChain.rules {
-				i := 0
+				i := top
 				if ru.append {
 					// Append before last non DROP line.
 					i = len(aChain.rules)
@@ -41,6 +42,8 @@ func (a *config) MergeSpoc(d deviceconf.Config) deviceconf.Config {
 							break
 						}
 					}
+				} else {
+					top++
 				}
 				aChain.rules = slices.Insert(aChain.rules, i, ru)
 			}
